@@ -162,8 +162,12 @@ var (
 
 type abortT struct{}
 
-// Epoch is the virtual time at which every simulation starts.
-var Epoch = time.Date(2030, 1, 1, 0, 0, 0, 0, time.UTC)
+// Epoch is the virtual time at which every simulation starts: what time.Now() reads in instrumented code
+// (the "wall clock"). It deliberately differs from the time the endpoint configurations are given
+// (props.ConfigEpoch, 2030-01-01) and lies inside the validity of the "expired" fixtures (2020-2025), so that
+// library code which consults the wall clock where the configured time is meant judges certificates wrongly
+// and is seen.
+var Epoch = time.Date(2024, 6, 1, 0, 0, 0, 0, time.UTC)
 
 //go:norace
 //go:noinline
